@@ -972,7 +972,7 @@ vharness! {
     //@ tier: quick
     //@ stubs: yes
     //@ functions: v5::shared::MqttShared::{encode_publish, encode_packet, encode_publish_payload, check_streaming, enable_streaming, is_streaming, force_close}, v5 Codec::encodev (REAL: Publish / PayloadChunk arms and its `encoding_payload` counter; the non-PUBLISH packet encoders are stubbed as unreachable)
-    //@ bounds: a streamed QoS 0 PUBLISH with declared payload size 1..=3, first chunk absent; then up to two chunks of 0..=3 bytes each, with attempts to send another packet in between
+    //@ bounds: a streamed QoS 0 PUBLISH with declared payload size 1..=3, first chunk absent; attempts to send other packets (a PUBLISH, an awaiting PUBLISH with an id in use or fresh); then ONE chunk of 0..=3 bytes (one step of the payload bookkeeping)
     //@ assumes: none
     //@ mem: 24  timeout: 1500
     //@ desc: while payload bytes are owed every other packet is refused (ExpectPayload) and writes nothing; chunks are written as long as they fit the declared size; a chunk that would exceed it writes nothing and aborts the connection; when exactly the declared size has been written other packets are accepted again; a chunk without a streamed PUBLISH is refused
@@ -997,14 +997,12 @@ vharness! {
             let hdr = io.bytes_written();
             assert!(hdr > 0 && sh.is_streaming());
             let mut owed = size;
-            let mut k = 0;
+            let k = 1;
             let mut aborted = false;
-            while k < 2 && owed > 0 && !aborted {
+            {
                 // nothing else may be interleaved
-                let mut q = codec::Publish::default();
-                q.payload_size = 0;
                 let before = io.bytes_written();
-                assert!(matches!(sh.encode_publish(q, None), Err(error::EncodeError::ExpectPayload)), "another PUBLISH accepted inside a streamed payload");
+                assert!(matches!(sh.encode_publish({ let mut q = codec::Publish::default(); q.payload_size = 0; q }, None), Err(error::EncodeError::ExpectPayload)), "another PUBLISH accepted inside a streamed payload");
                 assert!(io.bytes_written() == before && io.torn() == 0);
                 // neither may an awaiting send - with an identifier that is in use or a fresh one - get through,
                 // and its failure must leave the payload bookkeeping alone
@@ -1027,7 +1025,6 @@ vharness! {
                     assert!(io.bytes_written() == before + n);
                     assert!(sh.is_streaming() == (owed > 0));
                 }
-                k += 1;
             }
             if owed == 0 {
                 // exactly the declared size is on the wire: the connection is usable again
@@ -1036,7 +1033,8 @@ vharness! {
                 q.payload_size = 0;
                 assert!(sh.encode_publish(q, None).is_ok(), "connection unusable after a completed streamed payload");
             }
-            vcover!(owed == 0 && k == 2, "completed with two chunks");
+            vcover!(owed == 0 && k == 1, "completed by the chunk");
+            vcover!(owed > 0 && !aborted, "payload still owed");
             vcover!(aborted, "aborted on an over-long chunk");
             std::mem::forget(sh);
         })
